@@ -199,7 +199,7 @@ func (f *Fetcher) processNotification(notification announcesBatch, fetchTimer *t
 		})
 	}
 
-	if first && len(f.fetching) != 0 {
+	if first && f.announces.Len() != 0 {
 		f.rescheduleFetch(fetchTimer)
 	}
 }
